@@ -29,6 +29,7 @@ def Fc : Expr → Bool
   | .let_ seq bs body =>
     (seq || decide ((bs.map (·.1)).Nodup)) && !body.isEmpty && FcBinds bs && FcList body
   | .call (.sym h) args => foBuiltins.contains h && FcList args
+  | .arr es => FcList es
   | _ => false
 def FcList : List Expr → Bool
   | [] => true
@@ -105,6 +106,12 @@ def CClaimP (n : Nat) : Prop :=
   ∀ bs, FcBinds bs = true → ∀ isFn c gs r, (compileBinds isFn c false bs).run gs = .ok r → c.funcname = "" →
     ∀ s rs env pre post, RelC s rs env → Seg s pre r.1.1 post →
       SimCL r.1.1 s rs env (Ref.evalList n (bs.map (·.2)) env rs)
+
+/-- the elements of an array literal (`GenerateAll`) -/
+def CClaimV (n : Nat) : Prop :=
+  ∀ es, FcList es = true → ∀ isFn c gs r, (compileAll isFn c es).run gs = .ok r → c.funcname = "" →
+    ∀ s rs env pre post, RelC s rs env → Seg s pre r.1.1 post →
+      SimCL r.1.1 s rs env (Ref.evalList n es env rs)
 
 /-- operands of a call: `PrepareCallExprArgs` against `evalArgs` (no lazy positions) -/
 def CClaimA (n : Nat) : Prop :=
@@ -210,7 +217,13 @@ theorem compile_total_Fc : ∀ (e : Expr), Fc e = true → ∀ isFn c gs, c.func
       simp only [hne, Bool.and_false, Bool.false_eq_true, if_false]
       rfl
     | _ => simp [Fc] at he
-  | .arr _, he, _, _, _, _
+  | .arr es, he, isFn, c, gs, hfn => by
+    rw [Fc] at he
+    obtain ⟨code, t, h1⟩ := compileAll_total_Fc es he isFn c gs hfn
+    refine ⟨code ++ [.callArr es.length], t, ?_, by simp⟩
+    rw [compile]
+    simp only [g_bind_ok, g_pure_ok]
+    exact ⟨_, _, h1, rfl⟩
   | .for_ _ _ _ _ _, he, _, _, _, _ | .break_ _, he, _, _, _, _ | .continue_ _, he, _, _, _, _
   | .fn _ _ _, he, _, _, _, _ | .defn _ _ _ _, he, _, _, _, _ | .assign _ _, he, _, _, _, _ | .bad _, he, _, _, _, _ => by
     simp [Fc] at he
@@ -285,6 +298,18 @@ theorem compileBinds_total_Fc : ∀ (bs : List (String × Expr)), FcBinds bs = t
     obtain ⟨b, tb, hb⟩ := compileBinds_total_Fc bs he.2 isFn { c with tail := ta } seq gs hfn
     refine ⟨a ++ (if seq then [.popStackPutEnv x] else []) ++ b, tb, ?_⟩
     rw [compileBinds]
+    simp only [g_bind_ok, g_pure_ok]
+    exact ⟨_, _, ha, _, _, hb, rfl⟩
+theorem compileAll_total_Fc : ∀ (es : List Expr), FcList es = true → ∀ isFn c gs, c.funcname = "" →
+    ∃ code t, (compileAll isFn c es).run gs = .ok ((code, t), gs)
+  | [], _, isFn, c, gs, hfn => ⟨[], c.tail, by rw [compileAll]; rfl⟩
+  | e :: es, he, isFn, c, gs, hfn => by
+    rw [FcList] at he
+    simp only [Bool.and_eq_true] at he
+    obtain ⟨a, ta, ha, _⟩ := compile_total_Fc e he.1 isFn c gs hfn
+    obtain ⟨b, tb, hb⟩ := compileAll_total_Fc es he.2 isFn { c with tail := ta } gs hfn
+    refine ⟨a ++ b, tb, ?_⟩
+    rw [compileAll]
     simp only [g_bind_ok, g_pure_ok]
     exact ⟨_, _, ha, _, _, hb, rfl⟩
 theorem compileArms_total_Fc : ∀ (arms : List (Expr × Expr)), FcArms arms = true → ∀ isFn c gs, c.funcname = "" →
@@ -1150,6 +1175,45 @@ theorem cclaimP_succ {n : Nat} (hE : CClaimE n) (hP : CClaimP n) : CClaimP (n + 
     | brk l rs1 => rw [h1] at ih; exact ih.elim
     | cont l rs1 => rw [h1] at ih; exact ih.elim
 
+theorem cclaimV_succ {n : Nat} (hE : CClaimE n) (hV : CClaimV n) : CClaimV (n + 1) := by
+  intro es hes isFn c gs r hc hfn s rs env pre post hrel hseg
+  match es with
+  | [] =>
+    rw [compileAll] at hc; simp only [g_pure_ok] at hc; subst hc
+    rw [Ref.evalList]
+    · exact ⟨s, ReachE.refl s, rfl, by simp, by simp, hrel, FramesExt.refl rs, Frame.refl s⟩
+    · omega
+  | e :: es' =>
+    rw [FcList] at hes
+    simp only [Bool.and_eq_true] at hes
+    rw [compileAll] at hc
+    simp only [g_bind_ok, g_pure_ok] at hc
+    obtain ⟨ra, gs1, ha, rb, gs2, hb, rfl⟩ := hc
+    rw [Ref.evalList]
+    have ih := hE e hes.1 isFn _ gs (ra, gs1) ha hfn s rs env pre (rb.1 ++ post) hrel (hseg.refocus (by simp))
+    cases h1 : Ref.eval n e env rs with
+    | ok v1 rs1 =>
+      rw [h1] at ih
+      obtain ⟨s1, r1, l1, rel1, ext1, fr1⟩ := ih
+      simp only
+      have ih2 := hV es' hes.2 isFn _ gs1 (rb, gs2) hb hfn s1 rs1 env (pre ++ ra.1) post rel1
+        (hseg.move l1.fn (by simp) (by rw [l1.pc, hseg.pc]; simp))
+      cases h2 : Ref.evalList n es' env rs1 with
+      | ok vs rs2 =>
+        rw [h2] at ih2
+        obtain ⟨s2, r2, hfn2, hpc2, hdata2, rel2, ext2, fr2⟩ := ih2
+        refine ⟨s2, (r1.trans r2).mono (by lenarith), hfn2.trans l1.fn, ?_, ?_, rel2, ext1.trans ext2, fr1.trans fr2⟩
+        · rw [hpc2, l1.pc]; simp only [List.length_append]; push_cast; omega
+        · rw [hdata2, l1.data]; simp
+      | err rs2 => rw [h2] at ih2; exact (FailsE.of_reach r1 ih2).mono (by lenarith)
+      | timeout => trivial
+      | brk l rs2 => rw [h2] at ih2; exact ih2.elim
+      | cont l rs2 => rw [h2] at ih2; exact ih2.elim
+    | err rs1 => rw [h1] at ih; exact FailsE.mono ih (by lenarith)
+    | timeout => trivial
+    | brk l rs1 => rw [h1] at ih; exact ih.elim
+    | cont l rs1 => rw [h1] at ih; exact ih.elim
+
 theorem cclaimB_succ {n : Nat} (hE : CClaimE n) (hB : CClaimB n) : CClaimB (n + 1) := by
   intro es hne hes isFn c gs r hc hfn s rs env pre post hrel hseg
   match es, hne with
@@ -1288,6 +1352,46 @@ theorem cclaimS_succ {n : Nat} (hE : CClaimE n) (hS : CClaimS n) : CClaimS (n + 
       · intro hh; cases hh
     · intro hh; cases hh
 
+
+/-! ## Array literals -/
+
+theorem prim_array (args : List Val) (h : DataHeap) : prim "array" args h = some (h.alloc args) := by
+  unfold prim
+  simp [isCmp]
+
+/-- the state after a builtin returned `v` with heap `hp`: result pushed over `D`, next instruction -/
+def afterBuiltin (s₁ : St) (D : List (Option Val)) (v : Val) (hp : DataHeap) : St :=
+  { s₁ with heap := hp, data := some v :: D, pc := s₁.pc + 1 }
+
+/-- `[e₁ … eₙ]`, after the elements have been pushed: `CallInstr{array, n}` allocates the array -/
+theorem simC_arr_tail {s s₁ : St} {rs rs₁ : Ref.St} {env : Nat} {pre post ca : List Instr} {vs : List Val} {k : Nat}
+    (h : Seg s pre (ca ++ [.callArr k]) post) (hk : k = vs.length)
+    (r1 : ReachE ca.length s s₁) (hfn1 : fnOf s₁ s₁.curfunc = fnOf s s.curfunc)
+    (hpc1 : s₁.pc = s.pc + (ca.length : Int)) (hd1 : s₁.data = vs.reverse.map some ++ s.data)
+    (rel1 : RelC s₁ rs₁ env) (ext1 : FramesExt rs rs₁) (fr1 : Frame s s₁) :
+    SimC (ca ++ [.callArr k]) s rs env
+      (match rs₁.heap.alloc vs with | (a, hp) => .ok a { rs₁ with heap := hp }) := by
+  have a2 : At s₁ (pre ++ ca) (.callArr k) post :=
+    At.move h hfn1 (by simp) (by rw [hpc1, h.pc]; simp)
+  have hheapb : (inBuiltin s₁ s.data).heap = rs₁.heap := rel1.heap
+  have hfo : foResult "array" vs (inBuiltin s₁ s.data)
+      = (.ok (rs₁.heap.alloc vs).1, { inBuiltin s₁ s.data with heap := (rs₁.heap.alloc vs).2 }) := by
+    unfold foResult
+    rw [if_neg (by decide), hheapb, prim_array]
+  have hx : ∀ f, 2 ≤ f → (exec (f + 1) (.callArr k)).run s₁
+      = (.ok (), afterBuiltin s₁ s.data (rs₁.heap.alloc vs).1 (rs₁.heap.alloc vs).2) := by
+    intro f hf
+    obtain ⟨g, rfl⟩ : ∃ g, f = g + 2 := ⟨f - 2, by omega⟩
+    rw [exec, hk, run_callUser_fo g "array" (by decide) vs s.data s₁ hd1, hfo]
+    rfl
+  have hlen : (ca ++ [Instr.callArr k]).length = ca.length + 1 := by simp
+  show SimC _ s rs env (.ok (rs₁.heap.alloc vs).1 { rs₁ with heap := (rs₁.heap.alloc vs).2 })
+  refine ⟨_, (r1.trans (ReachE.step a2 2 hx)).mono (by rw [hlen]; exact Nat.le_refl _), ⟨?_, ?_, rfl⟩,
+    rel1.of_same rfl rfl rfl rfl rfl rfl rel1.trace, ext1.trans (fun i fr hf => ⟨fr, hf, rfl⟩),
+    fr1.trans ⟨rfl, rfl, rfl, rfl, Nat.le_refl _, fun _ _ => rfl⟩⟩
+  · exact hfn1
+  · show s₁.pc + 1 = _
+    rw [hpc1, hlen]; push_cast; omega
 
 /-! ## `let` with distinct names, and the expression step -/
 
@@ -1429,7 +1533,7 @@ theorem cclaimE_letpar {n : Nat} (hB : CClaimB n) (hP : CClaimP n) {bs : List (S
 
 
 theorem cclaimE_succ {n : Nat} (hE : CClaimE n) (hB : CClaimB n) (hC : CClaimC n) (hS : CClaimS n)
-    (hN : CClaimN n) (hL : CClaimL n) (hP : CClaimP n) (hA : CClaimA n) : CClaimE (n + 1) := by
+    (hN : CClaimN n) (hL : CClaimL n) (hP : CClaimP n) (hA : CClaimA n) (hV : CClaimV n) : CClaimE (n + 1) := by
   intro e he isFn c gs r hc hfn s rs env pre post hrel hseg
   cases e with
   | int x =>
@@ -1559,6 +1663,23 @@ theorem cclaimE_succ {n : Nat} (hE : CClaimE n) (hB : CClaimB n) (hC : CClaimC n
     | timeout => trivial
     | brk l rs2 => rw [h1] at hU; exact hU.elim
     | cont l rs2 => rw [h1] at hU; exact hU.elim
+  | arr es =>
+    rw [Fc] at he
+    rw [compile] at hc
+    simp only [g_bind_ok, g_pure_ok] at hc
+    obtain ⟨ra, gs1, ha, rfl⟩ := hc
+    rw [Ref.eval]
+    have ih := hV es he isFn c gs (ra, gs1) ha hfn s rs env pre ([.callArr es.length] ++ post) hrel
+      (hseg.refocus (by simp))
+    cases h1 : Ref.evalList n es env rs with
+    | ok vs rs1 =>
+      rw [h1] at ih
+      obtain ⟨s1, r1, hfn1, hpc1, hd1, rel1, ext1, fr1⟩ := ih
+      exact simC_arr_tail hseg (ref_evalList_length _ _ _ _ _ _ h1).symm r1 hfn1 hpc1 hd1 rel1 ext1 fr1
+    | err rs1 => rw [h1] at ih; exact FailsE.mono ih (by lenarith)
+    | timeout => trivial
+    | brk l rs1 => rw [h1] at ih; exact ih.elim
+    | cont l rs1 => rw [h1] at ih; exact ih.elim
   | call f args =>
     cases f with
     | sym h =>
@@ -1580,8 +1701,9 @@ theorem cclaimE_succ {n : Nat} (hE : CClaimE n) (hB : CClaimB n) (hC : CClaimC n
 
 /-! ## The induction -/
 
-theorem cclaims_zero : CClaimE 0 ∧ CClaimB 0 ∧ CClaimC 0 ∧ CClaimS 0 ∧ CClaimN 0 ∧ CClaimL 0 ∧ CClaimP 0 ∧ CClaimA 0 := by
-  refine ⟨?_, ?_, ?_, ?_, ?_, ?_, ?_, ?_⟩
+theorem cclaims_zero : CClaimE 0 ∧ CClaimB 0 ∧ CClaimC 0 ∧ CClaimS 0 ∧ CClaimN 0 ∧ CClaimL 0 ∧ CClaimP 0 ∧ CClaimA 0
+    ∧ CClaimV 0 := by
+  refine ⟨?_, ?_, ?_, ?_, ?_, ?_, ?_, ?_, ?_⟩
   · intro e _ isFn c gs r _ _ s rs env pre post _ _
     rw [Ref.eval]; trivial
   · intro es _ _ isFn c gs r _ _ s rs env pre post _ _
@@ -1598,13 +1720,16 @@ theorem cclaims_zero : CClaimE 0 ∧ CClaimB 0 ∧ CClaimC 0 ∧ CClaimS 0 ∧ C
     rw [Ref.evalList]; trivial
   · intro args _ i s rs env _
     rw [Ref.evalArgs]; trivial
+  · intro es _ isFn c gs r _ _ s rs env pre post _ _
+    rw [Ref.evalList]; trivial
 
 theorem cclaims : ∀ n, CClaimE n ∧ CClaimB n ∧ CClaimC n ∧ CClaimS n ∧ CClaimN n ∧ CClaimL n ∧ CClaimP n ∧ CClaimA n
+    ∧ CClaimV n
   | 0 => cclaims_zero
   | n + 1 => by
-    obtain ⟨hE, hB, hC, hS, hN, hL, hP, hA⟩ := cclaims n
-    exact ⟨cclaimE_succ hE hB hC hS hN hL hP hA, cclaimB_succ hE hB, cclaimC_succ hE hC, cclaimS_succ hE hS,
-      cclaimN_succ hE hN, cclaimL_succ hE hL, cclaimP_succ hE hP, cclaimA_succ hE hA⟩
+    obtain ⟨hE, hB, hC, hS, hN, hL, hP, hA, hV⟩ := cclaims n
+    exact ⟨cclaimE_succ hE hB hC hS hN hL hP hA hV, cclaimB_succ hE hB, cclaimC_succ hE hC, cclaimS_succ hE hS,
+      cclaimN_succ hE hN, cclaimL_succ hE hL, cclaimP_succ hE hP, cclaimA_succ hE hA, cclaimV_succ hE hV⟩
 
 /-- **Segment lemma for Fc** (Fv with binder names that are not builtin names, plus calls of
 first-order builtins with operands in Fc). From related states (`RelC`), the VM on the first
